@@ -71,9 +71,9 @@ def state_val():
     return v
 
 
-def with_state(sym, pfx):
+def with_state(sym, pfx, fields=FIELDS):
     v = state_val()
-    G["infer"].append((v, mk_state(sym, pfx)))
+    G["infer"].append((v, mk_state(sym, pfx, fields)))
     return v
 
 
@@ -82,9 +82,14 @@ def params_of(sym, n):
     return names
 
 
-def sym_name(sym, k):
+def sym_name(sym, k, fields=FIELDS):
     # a parameter name from the universe, chosen symbolically (so duplicated names are covered)
-    return "A" if sym.bool(f"p{k}_isA") else "B"
+    if len(fields) == 2:
+        return "A" if sym.bool(f"p{k}_isA") else "B"
+    return "A" if sym.bool(f"p{k}_isA") else ("B" if sym.bool(f"p{k}_isB") else "C")
+
+
+FIELDS3 = ("A", "B", "C")
 
 
 INFER_SHAPES = ([dict(kind="setup_noin", nparams=n) for n in (0, 1, 2)] + [dict(kind="setup_in", nparams=n) for n in (0, 1, 2)]
@@ -122,11 +127,9 @@ class infer_state_of_contract:
             blk = Block(arg_types=[IndexType(), None, None])
             blk.add_op(scf.YieldOp(other, yv))
             op = scf.ForOp(mk_ident_value(52), mk_ident_value(53), mk_ident_value(54), [other, init], Region([blk]))
-            blk.parent = op  # parent_op() of the body block (the region level is not modelled)
             G["case"] = dict(init=init, yv=yv)
             return [op.results[1] if kind == "for_result" else blk.args[2]]
         blk = Block(arg_types=[None])
-        blk.parent = None
         G["case"] = {}
         return [blk.args[0]]
 
@@ -273,3 +276,313 @@ class has_accfg_effects_contract:
 
     def canary(sh, a, ret):
         check("canary: nothing has effects", ret == False)  # noqa: E712
+
+
+# ===================================================================================================
+# C01: accfg_dedup.py - each rewrite preserves the register file every launch observes
+# ===================================================================================================
+from xdsl.pattern_rewriter import PatternRewriter  # noqa: E402
+
+import snaxc.transforms.accfg_dedup as dedup  # noqa: E402
+
+
+def apply_params(rho, names, vals):
+    """register semantics of a setup: rho (+) params, later writes of a field win"""
+    r = dict(rho)
+    for n, v in zip(names, vals):
+        r[n] = v
+    return r
+
+
+def same_regs(r1, r2, fields=FIELDS):
+    return all((f in r1) == (f in r2) and (f not in r1 or r1[f] == r2[f]) for f in fields)
+
+
+def names_of(op):
+    return [p.data for p in op.param_names]
+
+
+def sound(prev, rho):
+    """Sound(prev, rho): every assumed binding is true in the register file"""
+    return all(k in rho and rho[k] == prev[k] for k in prev)
+
+
+def mk_regs(sym, pfx, fields=FIELDS):
+    """an arbitrary total register file over the field universe"""
+    return {f: mk_ident_value(sym.int(f"{pfx}_{f}", 0, 3)) for f in fields}
+
+
+@contract
+class SimplifyRedundantSetupCalls_contract:
+    """dropping parameters the inferred previous state already holds never changes the registers after the setup,
+    GIVEN the inferred state is sound (C07)"""
+    target = "snaxc.transforms.accfg_dedup.SimplifyRedundantSetupCalls.match_and_rewrite"
+    shapes = [dict(nparams=n, has_in=h) for n in (0, 1, 2, 3) for h in (False, True)]
+    native = False
+    total = True
+    modular = {"snaxc.inference.trace_acc_state.infer_state_of": infer_rec}
+
+    def args(sh, sym):
+        G["infer"] = []
+        names = [sym_name(sym, k, FIELDS3) for k in range(sh["nparams"])]
+        vals = [mk_ident_value(sym.int(f"v{k}", 0, 3)) for k in range(sh["nparams"])]
+        ins = with_state(sym, "prev", FIELDS3) if sh["has_in"] else None
+        op = accfg.SetupOp(vals, names, "acc", ins)
+        rho = mk_regs(sym, "rho", FIELDS3)
+        return [op, names, vals, ins, rho]
+
+    def requires(sh, a):
+        op, names, vals, ins, rho = a
+        # is_valid(setup): a setup names each field at most once (the form every accelerator lowering emits - the
+        # property's own quantifier).  With a duplicated field the later write wins, and dropping it is not sound.
+        distinct = all(names[i] != names[j] for i in range(len(names)) for j in range(i))
+        return distinct and (sound(G["infer"][0][1], rho) if ins is not None else True)
+
+    def run(sh, a):
+        op = a[0]
+        rw = PatternRewriter(op)
+        dedup.SimplifyRedundantSetupCalls().match_and_rewrite(op, rw)
+        return rw.log
+
+    def ensures(sh, a, ret):
+        op, names, vals, ins, rho = a
+        if len(ret) == 0:
+            check("nothing recorded", True)
+        else:
+            check("exactly one replacement of the matched op by one new setup", len(ret) == 1 and ret[0][0] == "replace_op" and ret[0][1] is op and len(ret[0][2]) == 1)
+            new = ret[0][2][0]
+            check("same accelerator and same incoming state", isinstance(new, accfg.SetupOp) and new.accelerator == op.accelerator and new.in_state is op.in_state)
+            check("something was actually dropped", len(new.values) < len(vals))
+            check("registers after the reduced setup equal registers after the original one",
+                  same_regs(apply_params(rho, names_of(new), list(new.values)), apply_params(rho, names, vals), FIELDS3))
+            check("value/name lists stay aligned", len(new.values) == len(new.param_names))
+
+    def canary(sh, a, ret):
+        check("canary: the pattern never rewrites", len(ret) == 0)
+
+
+class PureView(Operation):
+    """an op between two setups: `pure` is a ghost flag (is_side_effect_free)"""
+
+    def __init__(self, pure):
+        self._init_op([], [], [])
+        self.pure = pure
+
+
+@contract
+class MergeSetupOps_contract:
+    """two setups of one accelerator with only side-effect-free ops in between become one setup with the union of
+    the fields (later wins) chained on the first one's incoming state"""
+    target = "snaxc.transforms.accfg_dedup.MergeSetupOps.match_and_rewrite"
+    shapes = [dict(between=b, prev=p, n1=n1, n2=n2) for b in (0, 1, 2) for p in ("same", "other", "none") for n1, n2 in ((1, 1), (2, 1), (1, 2), (0, 2))]
+    quick = lambda sh: sh["between"] <= 1 or (sh["n1"], sh["n2"]) == (1, 1)
+    native = False
+    total = True
+
+    def args(sh, sym):
+        n1, n2 = sh["n1"], sh["n2"]
+        names1 = [sym_name(sym, k) for k in range(n1)]
+        vals1 = [mk_ident_value(sym.int(f"u{k}", 0, 3)) for k in range(n1)]
+        names2 = [sym_name(sym, 10 + k) for k in range(n2)]
+        vals2 = [mk_ident_value(sym.int(f"w{k}", 0, 3)) for k in range(n2)]
+        st0 = mk_ident_value(90)
+        ops = []
+        prev = None
+        if sh["prev"] != "none":
+            prev = accfg.SetupOp(vals1, names1, "acc" if sh["prev"] == "same" else "other_acc", st0)
+            if sh["prev"] == "other":
+                prev.pure = sym.bool("other_setup_pure")
+            ops.append(prev)
+        mids = [PureView(sym.bool(f"pure{k}")) for k in range(sh["between"])]
+        ops.extend(mids)
+        op = accfg.SetupOp(vals2, names2, "acc", prev.out_state if prev is not None else None)
+        ops.append(op)
+        blk = Block(ops)
+        rho = mk_regs(sym, "rho")
+        return [op, prev, mids, names1, vals1, names2, vals2, rho, st0]
+
+    def run(sh, a):
+        op = a[0]
+        rw = PatternRewriter(op)
+        dedup.MergeSetupOps().match_and_rewrite(op, rw)
+        return rw.log
+
+    def ensures(sh, a, ret):
+        op, prev, mids, names1, vals1, names2, vals2, rho, st0 = a
+        if len(ret) == 0:
+            check("not merged", True)
+        else:
+            check("only a setup of the same accelerator is merged", sh["prev"] == "same")
+            check("every op skipped over is side-effect free", all(m.pure for m in mids))
+            er = [e for e in ret if e[0] == "erase_op"]
+            rp = [e for e in ret if e[0] == "replace_op"]
+            check("the earlier setup is erased and the matched one replaced by exactly one setup", len(er) == 1 and er[0][1] is prev and len(rp) == 1 and rp[0][1] is op and len(rp[0][2]) == 1 and len(ret) == 2)
+            new = rp[0][2][0]
+            check("merged setup is chained on the earlier setup's incoming state", new.in_state is st0 and new.accelerator == op.accelerator)
+            check("registers after the merged setup equal registers after both setups in sequence",
+                  same_regs(apply_params(rho, names_of(new), list(new.values)), apply_params(apply_params(rho, names1, vals1), names2, vals2)))
+
+    def canary(sh, a, ret):
+        check("canary: setups are never merged", len(ret) == 0)
+
+
+@contract
+class ElideEmptySetupOps_contract:
+    target = "snaxc.transforms.accfg_dedup.ElideEmptySetupOps.match_and_rewrite"
+    shapes = [dict(nparams=n, has_in=h) for n in (0, 1) for h in (False, True)]
+    native = False
+    total = True
+
+    def args(sh, sym):
+        vals = [mk_ident_value(sym.int(f"v{k}", 0, 3)) for k in range(sh["nparams"])]
+        ins = mk_ident_value(91) if sh["has_in"] else None
+        return [accfg.SetupOp(vals, ["A"][: sh["nparams"]], "acc", ins), ins]
+
+    def run(sh, a):
+        rw = PatternRewriter(a[0])
+        dedup.ElideEmptySetupOps().match_and_rewrite(a[0], rw)
+        return rw.log
+
+    def ensures(sh, a, ret):
+        op, ins = a
+        if len(ret) == 0:
+            check("kept: it writes something or has no incoming state", sh["nparams"] > 0 or not sh["has_in"])
+            check("uses untouched", op.out_state.replaced is None)
+        else:
+            check("only an empty setup with an incoming state is removed", sh["nparams"] == 0 and sh["has_in"])
+            check("it is erased and its users now see the incoming state", len(ret) == 1 and ret[0][0] == "erase_op" and ret[0][1] is op
+                  and op.out_state.replaced is not None and op.out_state.replaced[0] is ins)
+
+    def canary(sh, a, ret):
+        check("canary: never removed", len(ret) == 0)
+
+
+# ---------------------------------------------------------------------------------------------------
+# PullSetupOpsOutOfLoops and the region walk it relies on
+# ---------------------------------------------------------------------------------------------------
+def mk_loop_value(sym, name):
+    v = mk_ident_value(sym.int(name, 0, 2))
+    v.inside = sym.bool(name + "_defined_in_loop")
+    return v
+
+
+def defined_in_block_contract(local):
+    """assumed (use-def / dominance question on the IR): val_is_defined_in_block == the ghost flag of the value"""
+    return local["val"].inside
+
+
+def build_loop(sym, sh):
+    """scf.for whose body holds `top` setups at top level and `nested` setups inside an scf.if (then-branch), all for
+    accelerator 'acc' (plus one for another accelerator); the first top-level setup takes the loop-carried state"""
+    init = mk_ident_value(95)
+    blk = Block(arg_types=[IndexType(), None])
+    state_arg = blk.args[1]
+    setups = []
+    ops = []
+    prev_state = state_arg
+    for k in range(sh["top"]):
+        names = [sym_name(sym, 10 * k + j) for j in range(sh["nparams"])]
+        vals = [mk_loop_value(sym, f"t{k}_{j}") for j in range(sh["nparams"])]
+        s = accfg.SetupOp(vals, names, "acc", prev_state)
+        prev_state = s.out_state
+        setups.append((s, names, vals))
+        ops.append(s)
+    nested_ops = []
+    for k in range(sh["nested"]):
+        names = [sym_name(sym, 100 + 10 * k + j) for j in range(sh["nparams"])]
+        vals = [mk_loop_value(sym, f"n{k}_{j}") for j in range(sh["nparams"])]
+        s = accfg.SetupOp(vals, names, "acc", prev_state)
+        setups.append((s, names, vals))
+        nested_ops.append(s)
+    other = accfg.SetupOp([mk_loop_value(sym, "o0")], ["A"], "other_acc", None)
+    if sh["nested"] > 0:
+        ops.append(scf.IfOp(mk_ident_value(96), [], Region([Block(nested_ops + [scf.YieldOp()])]), Region([Block([scf.YieldOp()])])))
+    ops.append(other)
+    ops.append(scf.YieldOp(prev_state))
+    for o in ops:
+        blk.add_op(o)
+    loop = scf.ForOp(mk_ident_value(97), mk_ident_value(98), mk_ident_value(99), [init], Region([blk]))
+    return loop, setups, init, state_arg
+
+
+LOOP_SHAPES = [dict(top=t, nested=n, nparams=p) for t in (1, 2) for n in (0, 1) for p in (1, 2) if not (t == 2 and n == 1 and p == 2)]
+
+
+def consistent_values(setups):
+    """same identity => same 'defined in loop' flag (one SSA value has one definition site)"""
+    vs = [v for _, _, vals in setups for v in vals]
+    return all(implies(vs[i] == vs[j], vs[i].inside == vs[j].inside) for i in range(len(vs)) for j in range(i))
+
+
+@contract
+class all_setup_ops_in_region_contract:
+    """every setup of the accelerator ANYWHERE in the region (nested control flow included) is reported"""
+    target = "snaxc.inference.trace_acc_state.all_setup_ops_in_region"
+    shapes = LOOP_SHAPES
+    native = False
+    total = True
+
+    def args(sh, sym):
+        loop, setups, init, state_arg = build_loop(sym, sh)
+        G["case"] = dict(setups=setups)
+        return [loop.body, "acc"]
+
+    def requires(sh, a):
+        return all(names[i] != names[j] for _, names, _ in G["case"]["setups"] for i in range(len(names)) for j in range(i))
+
+    def ensures(sh, a, ret):
+        states = list(ret)
+        setups = G["case"]["setups"]
+        check("one state per setup of this accelerator, nested ones included, none for other accelerators", len(states) == len(setups))
+        for k in range(min(len(states), len(setups))):
+            _, names, vals = setups[k]
+            check(f"setup {k}: its fields and values", sorted(states[k].keys()) == sorted(names) and all(states[k][n] == v for n, v in zip(names, vals)))
+
+    def canary(sh, a, ret):
+        check("canary: only one setup is ever found", len(list(ret)) == 1)
+
+
+@contract
+class PullSetupOpsOutOfLoops_contract:
+    """a field is hoisted in front of the loop only if EVERY setup in the loop (nested ones included) writes the same
+    value to it and that value is defined outside the loop; the hoisted setup is chained in front of the loop state"""
+    target = "snaxc.transforms.accfg_dedup.PullSetupOpsOutOfLoops.match_and_rewrite"
+    shapes = LOOP_SHAPES
+    native = False
+    total = True
+    modular = {"snaxc.inference.helpers.val_is_defined_in_block": defined_in_block_contract}
+
+    def args(sh, sym):
+        loop, setups, init, state_arg = build_loop(sym, sh)
+        G["case"] = dict(setups=setups)
+        return [setups[0][0], loop, setups, init, state_arg]
+
+    def requires(sh, a):
+        setups = a[2]
+        return consistent_values(setups) and all(names[i] != names[j] for _, names, _ in setups for i in range(len(names)) for j in range(i))
+
+    def run(sh, a):
+        op, loop = a[0], a[1]
+        rw = PatternRewriter(op)
+        dedup.PullSetupOpsOutOfLoops().match_and_rewrite(op, rw)
+        return rw.log
+
+    def ensures(sh, a, ret):
+        op, loop, setups, init, state_arg = a
+        if len(ret) == 0:
+            check("nothing hoisted", True)
+        else:
+            check("exactly one setup is inserted directly before the loop", len(ret) == 1 and ret[0][0] == "insert_op" and len(ret[0][1]) == 1
+                  and ret[0][2].kind == "before" and ret[0][2].anchor is loop)
+            new = ret[0][1][0]
+            hn, hv = names_of(new), list(new.values)
+            check("hoisted setup: same accelerator, chained on the loop's initial state", new.accelerator == op.accelerator and new.in_state is init)
+            check("the loop now starts from the hoisted setup's state", any(o is new.out_state for o in loop.operands) and not any(o is init for o in loop.operands))
+            for i in range(len(hn)):
+                for s, names, vals in setups:
+                    for n, v in zip(names, vals):
+                        check(f"hoisted field {i}: every setup in the loop that writes it writes the hoisted value, defined outside the loop",
+                              implies(n == hn[i], v == hv[i] and not v.inside))
+
+    def canary(sh, a, ret):
+        check("canary: nothing is ever hoisted", len(ret) == 0)
